@@ -89,12 +89,15 @@ func RaceCollect(limit int) (sigs, reports []string) {
 		return nil, nil
 	}
 	b, _ := io.ReadAll(f)
+	rawReports = strings.Count(string(b), "WARNING: DATA RACE")
 	sigs, reports = ParseRaceReports(string(b))
 	if len(sigs) > limit {
 		sigs, reports = sigs[:limit], reports[:limit]
 	}
 	return
 }
+
+var rawReports int
 
 // RaceDelta is the number of reports since RaceMark.
 func RaceDelta() int { return verifsim.RaceErrors() - rlog.errs }
@@ -112,6 +115,9 @@ func attachRaces(res *Result, n int, asSig string) {
 		return
 	}
 	sigs, reps := RaceCollect(n)
+	if len(sigs) == 0 && rawReports > 0 {
+		return // only simulator-internal reports
+	}
 	if len(sigs) == 0 {
 		res.Harness = fmt.Sprintf("%d race reports counted but none found in %q (GORACE log_path missing?)", n, rlog.path)
 		return
